@@ -19,11 +19,11 @@ theorem pp_containsCall (ρ : String → Option Word) (ps imp : List String) :
   | .num _, _, h => by simp [pureE] at h
   | .bool _, _, h => by simp [pureE] at h
   | .name _, _, h => by simp [pureE] at h
-  | .str _, hp, _ => by simp [ppE] at hp
+  | .str _, _, h => by simp [pureE] at h
   | .syscall _ _, hp, _ => by simp [ppE] at hp
   | .sub _ i, hp, h => by simp only [ppE] at hp; simp only [pureE] at h; rw [hp] at h; simp at h
   | .call g args, _, _ => by
-    have : optExpr (annotate ρ (.call g args)) = .call (-1) g (optArgs (annotateL ρ args)) := by
+    have : optExpr (annotate ρ (.call g args)) = .call (sysOf ρ g) g (optArgs (annotateL ρ args)) := by
       simp only [annotate]
       conv => lhs; unfold optExpr
     rw [this]
@@ -94,7 +94,7 @@ theorem pp_nonpure_int (xc : X.Ctx) (ps imp : List String) (fuel : Nat) (e : X.E
     | num x => rfl
     | bool b => rfl
     | name n => rfl
-    | str bs => simp [ppE] at hp
+    | str bs => rfl
     | syscall id args => simp [ppE] at hp
     | sub n i => simp only [ppE] at hp; simp only [pureE]; exact hp
     | call g args =>
@@ -142,40 +142,40 @@ include wf pk hps
 /-- One actual of the class: its code leaves the word of its value in areg. -/
 theorem pp_actual (fuel : Nat) (hleaf : ∀ k, k ≤ fuel → CallLeaf K ps k) (e : X.Expr) (σ : X.St) (v : Val) (σ' : X.St)
     (hp : ppE ps K.xc.impure e = true) (hn : NoLoc ps σ) (hev : X.eval fuel K.xc e σ = .ok v σ') :
-    ExecAt false K (optExpr (annotate K.ρ e)) (wordOf K.abase v) σ ∧
-    (containsCall (optExpr (annotate K.ρ e)) = false → ExecAt true K (optExpr (annotate K.ρ e)) (wordOf K.abase v) σ) := by
+    ExecP false K (optExpr (annotate K.ρ e)) (K.VRep v) σ ∧
+    (containsCall (optExpr (annotate K.ρ e)) = false → ExecP true K (optExpr (annotate K.ρ e)) (K.VRep v) σ) := by
   by_cases hpu : pureE e = true
   · have h := expr_pure_val K wf fuel e σ v σ' hpu hev
     exact ⟨h.weaken, fun _ => h⟩
   · have hpf : pureE e = false := by simpa using hpu
     refine ⟨?_, fun hc => ?_⟩
     · cases v with
-      | int w => exact expr_pp_correct K wf ps pk hps fuel hleaf e σ w σ' hp hn hev
+      | int w => exact (expr_pp_correct K wf ps pk hps fuel hleaf e σ w σ' hp hn hev).toP rfl
       | arr r => exact absurd (pp_nonpure_int K.xc ps _ fuel e σ σ' r hp hev) hpu
     · rw [pp_containsCall K.ρ ps _ e hp hpf] at hc
       simp at hc
 
 /-- **The actuals of the class**, relative to the state before the first one. -/
 theorem ppArgs_specs : ∀ (es : List X.Expr) (fuel : Nat) (hleaf : ∀ k, k ≤ fuel → CallLeaf K ps k) (st0 st s : X.St)
-    (vs : List Val) (mem : Mem),
-    (∀ e ∈ es, ppE ps K.xc.impure e = true) → Sim st0 st → NoLoc ps st → Rep K st mem →
+    (vs : List Val),
+    (∀ e ∈ es, ppE ps K.xc.impure e = true) → Sim st0 st → NoLoc ps st →
     X.evalArgs fuel K.xc es st = .ok vs s →
-    Sim st s ∧ es.length = vs.length ∧ (∀ v ∈ vs, okV v = true) ∧
-    SaveSpec K st0 (optArgsOf K.ρ es) (vs.map (wordOf K.abase)) ∧
-    LoadSpec K st0 (optArgsOf K.ρ es) (vs.map (wordOf K.abase)) := by
+    Sim st s ∧ es.length = vs.length ∧
+    SaveSpec K st0 (optArgsOf K.ρ es) (vs.map K.VRep) ∧
+    LoadSpec K st0 (optArgsOf K.ρ es) (vs.map K.VRep) := by
   intro es
   induction es with
   | nil =>
-    intro fuel _ st0 st s vs mem _ _ _ _ hev
+    intro fuel _ st0 st s vs _ _ _ hev
     cases fuel with
     | zero => rw [evalArgs_zero] at hev; simp at hev
     | succ f =>
       rw [evalArgs_nil] at hev
       simp only [Res.ok.injEq] at hev
       rw [← hev.1, ← hev.2]
-      exact ⟨Sim.refl _, rfl, fun v hv => by simp at hv, trivial, trivial⟩
+      exact ⟨Sim.refl _, rfl, trivial, trivial⟩
   | cons e rest ih =>
-    intro fuel hleaf st0 st s vs mem hp hs0 hn hr hev
+    intro fuel hleaf st0 st s vs hp hs0 hn hev
     cases fuel with
     | zero => rw [evalArgs_zero] at hev; simp at hev
     | succ f =>
@@ -185,19 +185,9 @@ theorem ppArgs_specs : ∀ (es : List X.Expr) (fuel : Nat) (hleaf : ∀ k, k ≤
       have hleaf' : ∀ k, k ≤ f → CallLeaf K ps k := fun k hk => hleaf k (Nat.le_succ_of_le hk)
       have hs1 := eval_pp_sim K.xc ps hps pk f e st v0 s1 hpe hn h1
       obtain ⟨hA, hB⟩ := pp_actual K wf ps pk hps f hleaf' e st v0 s1 hpe hn h1
-      obtain ⟨hsr, hlen, hokv, hsave, hload⟩ := ih f hleaf' st0 s1 s vs' mem (fun x hx => hp x (by simp [hx]))
-        (hs0.trans hs1) (hn.sim hs1) (hr.sim hs1) h2
-      have hokv0 : okV v0 = true := by
-        cases v0 with
-        | int w => rfl
-        | arr r =>
-          have hpu := pp_nonpure_int K.xc ps _ f e st s1 r hpe h1
-          exact eval_pure_okV K f e st _ s1 mem hpu hr h1
-      refine ⟨hs1.trans hsr, by simp [hlen], ?_, ?_, ?_⟩
-      · intro x hx
-        rcases List.mem_cons.mp hx with rfl | hx
-        · exact hokv0
-        · exact hokv x hx
+      obtain ⟨hsr, hlen, hsave, hload⟩ := ih f hleaf' st0 s1 s vs' (fun x hx => hp x (by simp [hx]))
+        (hs0.trans hs1) (hn.sim hs1) h2
+      refine ⟨hs1.trans hsr, by simp [hlen], ?_, ?_⟩
       · simp only [optArgsOf, List.map_cons, SaveSpec]
         exact ⟨fun _ => hA.sim hs0.symm, hsave⟩
       · simp only [optArgsOf, List.map_cons, LoadSpec]
@@ -207,25 +197,64 @@ end
 
 /-! ### Constant actuals (literals and names of constants): their code does not look at the state -/
 
-/-- Literals and names of constants. -/
+/-- The operators whose constant-annotated node `OptimiseExpr` keeps as it is (the others are
+    rewritten to `~` / `<` / `=` even when they are constant). -/
+def keptOp : BinOp → Bool
+  | .plus | .minus | .eq | .ls | .and | .or => true
+  | _ => false
+
+/-- Constants: literals, names of constants, and the operators `ConstProp` folds over them (so
+    `-1`, `k + 1`), except the relational operators that `OptimiseExpr` rewrites. -/
 def isConstL (ρ : String → Option Word) : X.Expr → Bool
   | .num _ | .bool _ => true
   | .name n => (ρ n).isSome
+  | .un _ e => isConstL ρ e
+  | .bin op l r => keptOp op && isConstL ρ l && isConstL ρ r
   | _ => false
 
-theorem constL_pure (ρ : String → Option Word) (e : X.Expr) (h : isConstL ρ e = true) : pureE e = true := by
-  cases e <;> simp [isConstL] at h <;> rfl
+theorem constL_pure (ρ : String → Option Word) : (e : X.Expr) → isConstL ρ e = true → pureE e = true
+  | .num _, _ => rfl
+  | .bool _, _ => rfl
+  | .name _, _ => rfl
+  | .un _ x, h => by simp only [isConstL] at h; simp only [pureE]; exact constL_pure ρ x h
+  | .bin _ l r, h => by
+    simp only [isConstL, Bool.and_eq_true] at h
+    simp only [pureE, Bool.and_eq_true]
+    exact ⟨constL_pure ρ l h.1.2, constL_pure ρ r h.2⟩
+  | .str _, h => by simp [isConstL] at h
+  | .sub _ _, h => by simp [isConstL] at h
+  | .call _ _, h => by simp [isConstL] at h
+  | .syscall _ _, h => by simp [isConstL] at h
 
-theorem constL_const (ρ : String → Option Word) (e : X.Expr) (h : isConstL ρ e = true) :
-    (∃ c, (annotate ρ e).const = some c) ∧ optExpr (annotate ρ e) = annotate ρ e := by
-  cases e with
-  | num x => exact ⟨⟨x, rfl⟩, by simp [annotate, optExpr]⟩
-  | bool b => exact ⟨⟨_, rfl⟩, by simp [annotate, optExpr]⟩
-  | name n =>
+theorem constL_const (ρ : String → Option Word) : (e : X.Expr) → isConstL ρ e = true →
+    (∃ c, (annotate ρ e).const = some c) ∧ optExpr (annotate ρ e) = annotate ρ e
+  | .num x, _ => ⟨⟨x, rfl⟩, by simp [annotate, optExpr]⟩
+  | .bool b, _ => ⟨⟨_, rfl⟩, by simp [annotate, optExpr]⟩
+  | .name n, h => by
     simp only [isConstL] at h
     obtain ⟨c, hc⟩ := Option.isSome_iff_exists.mp h
     exact ⟨⟨c, by simp [annotate, hc]⟩, by simp [annotate, optExpr]⟩
-  | _ => simp [isConstL] at h
+  | .un op x, h => by
+    simp only [isConstL] at h
+    obtain ⟨⟨c, hc⟩, _⟩ := constL_const ρ x h
+    refine ⟨⟨foldUn op c, by simp [annotate, hc]⟩, ?_⟩
+    simp only [annotate, hc, Option.map_some]
+    rw [optExpr_un]
+    simp
+  | .bin op l r, h => by
+    simp only [isConstL, Bool.and_eq_true] at h
+    obtain ⟨⟨cl, hcl⟩, _⟩ := constL_const ρ l h.1.2
+    obtain ⟨⟨cr, hcr⟩, _⟩ := constL_const ρ r h.2
+    refine ⟨⟨foldBin op cl cr, by simp [annotate, hcl, hcr]⟩, ?_⟩
+    simp only [annotate, hcl, hcr]
+    rw [optExpr_bin]
+    simp only [Option.isSome_some, if_true]
+    have hk := h.1.1
+    cases op <;> simp [keptOp] at hk <;> rfl
+  | .str _, h => by simp [isConstL] at h
+  | .sub _ _, h => by simp [isConstL] at h
+  | .call _ _, h => by simp [isConstL] at h
+  | .syscall _ _, h => by simp [isConstL] at h
 
 /-- The triple of a constant actual holds relative to ANY source state. -/
 theorem execA_constL (K : PCtx) (wf : K.WF) (e : X.Expr) (hc : isConstL K.ρ e = true) (fuel : Nat) (σ0 σ1 : X.St) (v : Val)
@@ -238,7 +267,9 @@ theorem execA_constL (K : PCtx) (wf : K.WF) (e : X.Expr) (hc : isConstL K.ρ e =
     | int w => exact ⟨w, rfl⟩
     | arr r =>
       exfalso
-      obtain ⟨n, rfl, ht, hrd⟩ := eval_pure_arr K.xc fuel _ σ0 σ1 r hp hev
+      rcases eval_pure_arr K.xc fuel _ σ0 σ1 r hp hev with ⟨n, rfl, ht, hrd⟩ | ⟨bs, ws, rfl, _⟩
+      rotate_left
+      · simp [isConstL] at hc
       simp only [isConstL] at hc
       obtain ⟨c', hc'⟩ := Option.isSome_iff_exists.mp hc
       have := (hv.same (tick_same _ _ _ ht)) n c' hc'
@@ -253,7 +284,7 @@ theorem execA_constL (K : PCtx) (wf : K.WF) (e : X.Expr) (hc : isConstL K.ρ e =
   have st := exec_genConst K wf .A w gs gs' code σ i a b mem σ.io hg hat hr hci
   exact ⟨b, mem, st, hr, FrmC.refl _ _ _ _⟩
 
-theorem savedOk_noCall (K : PCtx) (mem : Mem) : ∀ (args : List AExpr) (ws : List Word) (sv : Nat),
+theorem savedOk_noCall (K : PCtx) (mem : Mem) : ∀ (args : List AExpr) (ws : List (Word → Prop)) (sv : Nat),
     (∀ a ∈ args, containsCall a = false) → SavedOk K mem args ws sv := by
   intro args
   induction args with
@@ -270,8 +301,8 @@ theorem savedOk_noCall (K : PCtx) (mem : Mem) : ∀ (args : List AExpr) (ws : Li
 /-- **Constant actuals**: their values, and their code triples relative to any state. -/
 theorem constLs_specs (K : PCtx) (wf : K.WF) : ∀ (post : List X.Expr) (f : Nat) (s1 s : X.St) (vs : List Val),
     (∀ e ∈ post, isConstL K.ρ e = true) → ValsOk K.ρ K.xc s1 → X.evalArgs f K.xc post s1 = .ok vs s →
-    SameVars s1 s ∧ post.length = vs.length ∧ (∀ v ∈ vs, okV v = true) ∧
-    ∀ σ, LoadSpec K σ (optArgsOf K.ρ post) (vs.map (wordOf K.abase)) := by
+    SameVars s1 s ∧ post.length = vs.length ∧
+    ∀ σ, LoadSpec K σ (optArgsOf K.ρ post) (vs.map K.VRep) := by
   intro post
   induction post with
   | nil =>
@@ -282,7 +313,7 @@ theorem constLs_specs (K : PCtx) (wf : K.WF) : ∀ (post : List X.Expr) (f : Nat
       rw [evalArgs_nil] at hev
       simp only [Res.ok.injEq] at hev
       rw [← hev.1, ← hev.2]
-      exact ⟨SameVars.refl _, rfl, fun v hv => by simp at hv, fun _ => trivial⟩
+      exact ⟨SameVars.refl _, rfl, fun _ => trivial⟩
   | cons e rest ih =>
     intro f s1 s vs hc hv hev
     cases f with
@@ -292,15 +323,10 @@ theorem constLs_specs (K : PCtx) (wf : K.WF) : ∀ (post : List X.Expr) (f : Nat
       subst hvs
       have hce := hc e (by simp)
       have hs12 := eval_pure K.xc _ _ _ _ _ (constL_pure K.ρ e hce) h1
-      obtain ⟨hsr, hlen, hokv, hspec⟩ := ih f s2 s vs' (fun x hx => hc x (by simp [hx])) (hv.same hs12) h2
-      refine ⟨hs12.trans hsr, by simp [hlen], ?_, fun σ => ?_⟩
-      · intro x hx
-        rcases List.mem_cons.mp hx with rfl | hx
-        · obtain ⟨w, hw, _⟩ := execA_constL K wf e hce f s1 s2 _ hv h1 s1
-          rw [hw]; rfl
-        · exact hokv x hx
+      obtain ⟨hsr, hlen, hspec⟩ := ih f s2 s vs' (fun x hx => hc x (by simp [hx])) (hv.same hs12) h2
+      refine ⟨hs12.trans hsr, by simp [hlen], fun σ => ?_⟩
       · obtain ⟨w, hw, hA⟩ := execA_constL K wf e hce f s1 s2 v0 hv h1 σ
         simp only [optArgsOf, List.map_cons, LoadSpec]
-        refine ⟨fun _ => by rw [hw]; exact hA, hspec σ⟩
+        refine ⟨fun _ => by rw [hw]; exact hA.toP rfl, hspec σ⟩
 
 end Hex.C01s
